@@ -88,7 +88,13 @@ def run(ctx):
     # 4. binding self-test: shift every expected start index by one => the replay must object
     if not bad:
         st = ctx.path("res_selftest.ndjson")
-        ctx.run_bin(binary, ["imm-replay", "--vec", vec, "--work", ctx.work, "--mode", "real", "--tier", tier,
+        with open(vec) as f:
+            trimmed = [json.loads(x) for x in f]
+        for x in trimmed:
+            x["ans"] = x["ans"][:150]
+        vtrim = ctx.path("vec_selftest.ndjson")
+        vlib.write_ndjson(vtrim, trimmed)
+        ctx.run_bin(binary, ["imm-replay", "--vec", vtrim, "--work", ctx.work, "--mode", "real", "--tier", "quick",
                              "--seed", ctx.seed, "--out", st, "--skew", 1])
         srows = vlib.read_ndjson(st)
         big = [r for r in srows if r["type"] == "db" and r["blocks"] > 0]
@@ -103,7 +109,9 @@ def run(ctx):
         pv = ctx.path("vec_dropped.ndjson")
         vlib.write_ndjson(pv, [vs[tgt]])
         st2 = ctx.path("res_selftest2.ndjson")
-        ctx.run_bin(binary, ["imm-replay", "--vec", pv, "--work", ctx.work, "--mode", "real", "--tier", tier,
+        vs[tgt]["ans"] = vs[tgt]["ans"][:20]
+        vlib.write_ndjson(pv, [vs[tgt]])
+        ctx.run_bin(binary, ["imm-replay", "--vec", pv, "--work", ctx.work, "--mode", "real", "--tier", "quick",
                              "--seed", ctx.seed, "--out", st2])
         s2 = [r for r in vlib.read_ndjson(st2) if r["type"] == "db"]
         ctx.selftest("one block removed from the expected read_blocks sequence", s2[0]["mismatches"] > 0)
